@@ -12,7 +12,7 @@ from vlib.rec import REC
 ID = "C19"
 LEVEL = "exploration"
 DECIDING = ["C19.construct", "C19.getter"]
-RULE = ("exhaustive box: n_b, n_o in 1..5, n_t in {1,2} (quick) / {1,2,3} (thorough), both position modes, bare numbers (quick) plus explicit "
+RULE = ("exhaustive box: n_b, n_o in 1..5, n_t in {1,2} (quick) / {1,2,3} (thorough), both position modes, bare numbers and fulldiv_N names (quick) plus explicit "
         "algorithm names per role and two factors (thorough); for each specification the constructor and the five getters (array, volumes, "
         "adjacency, borders, distances) are called, every getter even if an earlier one failed. Non-trivial = specification with n>=2 cells; "
         "distinct by (b, o, t, mode)")
@@ -123,6 +123,10 @@ def specs(tier):
                     for b in (f"cube4D_{nb}", f"randomQ_{nb}"):
                         for o in (f"ico_{no}", f"cube3D_{no}", f"randomS_{no}"):
                             out.append((b, o, t, cart, 0.5))
+    # the third rotation algorithm documents that only full subdivisions are supported: every other N must be a ValueError
+    for nb in (1, 2, 5, 8, 9, 40):
+        for cart in (False, True):
+            out.append((f"fulldiv_{nb}", "4", ts[1], cart, 2))
     if tier == "thorough":
         for t in ts:
             for cart in (False, True):
